@@ -37,6 +37,7 @@ int ad_is_complete(void *ses, int sid);              /* 0 / 1 */
 int ad_get_tab(void *ses, void **tab, int sid);
 int ad_ctrl_u32(void *ses, uint32_t type, uint32_t *val, int sid);
 int ad_ctrl_lastnull(void *ses, int *val, int sid);
+int ad_set_field_size(void *ses, uint32_t m, int sid);       /* codec 2: OF_RS_CTRL_SET_FIELD_SIZE */
 
 /* libc rand() seam: the stream the library sees from now on */
 void ad_set_rand_stream(uint64_t seed);
